@@ -302,6 +302,7 @@ func validateBounds(p *Program, V *ssa.Function) map[string]int64 {
 				if !okf || !sameObject(base, recv) {
 					continue
 				}
+				set("validated:"+fld.Name(), 1)
 				for _, f := range ta.dispatch(V, mi, "Validate") {
 					if c, ok := upperBoundFromAccept(p, f, "param"); ok {
 						set("val:"+fld.Name(), c)
@@ -324,6 +325,7 @@ func validateBounds(p *Program, V *ssa.Function) map[string]int64 {
 			if u, ok := recvArg.(*ssa.UnOp); ok && u.Op == token.MUL {
 				if ia, ok := u.X.(*ssa.IndexAddr); ok {
 					if fld, base, ok := loadedField(ia.X); ok && sameObject(base, recv) {
+						set("validated-elem:"+fld.Name(), 1)
 						if c, ok := upperBoundFromAccept(p, tf, "len"); ok {
 							set("elemlen:"+fld.Name(), c)
 						}
@@ -332,6 +334,7 @@ func validateBounds(p *Program, V *ssa.Function) map[string]int64 {
 				}
 			}
 			if fld, base, ok := loadedField(recvArg); ok && sameObject(base, recv) {
+				set("validated:"+fld.Name(), 1)
 				if c, ok := upperBoundFromAccept(p, tf, "param"); ok {
 					set("val:"+fld.Name(), c)
 				}
@@ -638,4 +641,110 @@ func sortedKeys(m map[string]int64) []string {
 	}
 	sort.Strings(ks)
 	return ks
+}
+
+// ruleValidateFields: the validator of a codec type runs the validator of every field that has one, on every
+// accepting path, and an error of a field validator makes the type's validator fail. (R-VALIDATE-PASS only
+// establishes that decoders call the type's Validate; this is what makes that call mean something.)
+func ruleValidateFields(p *Program, r *Result, validators map[string]*ssa.Function) {
+	n := 0
+	for _, t := range sortedValidatorNames(validators) {
+		V := validators[t]
+		named := p.lookupType("", t)
+		if V == nil || named == nil {
+			continue
+		}
+		st, ok := named.Underlying().(*types.Struct)
+		if !ok {
+			continue
+		}
+		b := validateBounds(p, V)
+		for i := 0; i < st.NumFields(); i++ {
+			f := st.Field(i)
+			if !hasValidateMethod(p, f.Type()) || validatorCannotFail(p, f.Type()) {
+				continue
+			}
+			if why, ok := validateFieldExceptions[t+"."+f.Name()]; ok {
+				r.ok("R-VALIDATE-FIELDS", t+".Validate:"+f.Name(), p.Pos(V.Pos()), false, "not required: %s", why)
+				continue
+			}
+			n++
+			_, whole := b["validated:"+f.Name()]
+			_, elems := b["validated-elem:"+f.Name()]
+			r.cond(whole || elems, "R-VALIDATE-FIELDS", t+".Validate:"+f.Name(), p.Pos(V.Pos()),
+				fmt.Sprintf("%s.Validate runs the validator of field %s on every accepting path and fails when it fails", t, f.Name()),
+				fmt.Sprintf("%s.Validate does not run the validator of field %s on every accepting path with its error making the validation fail: a decoded value breaking the field's own rules is returned without error", t, f.Name()))
+		}
+	}
+	if len(validators) > 1 {
+		r.floor("R-VALIDATE-FIELDS", 20)
+	}
+}
+
+// validateFieldExceptions: fields whose own validator has nothing to say in the context of the type (confirmed by
+// reading the validator), one line of reason each.
+var validateFieldExceptions = map[string]string{
+	"AuthenReply.Data": "AuthenData's only rule (ASCII for an ASCII login) is conditioned on the START's authentication type, which a REPLY does not carry; with any other condition the validator returns nil",
+}
+
+// validatorCannotFail: every Validate method of t returns the nil constant on every path.
+func validatorCannotFail(p *Program, t types.Type) bool {
+	found := false
+	for _, tt := range []types.Type{t, types.NewPointer(t)} {
+		ms := p.SSA.MethodSets.MethodSet(tt)
+		for i := 0; i < ms.Len(); i++ {
+			if ms.At(i).Obj().Name() != "Validate" {
+				continue
+			}
+			fobj, _ := ms.At(i).Obj().(*types.Func)
+			if fobj == nil {
+				return false
+			}
+			fn := p.SSA.FuncValue(fobj)
+			if fn == nil || len(fn.Blocks) == 0 {
+				return false
+			}
+			found = true
+			for _, b := range fn.Blocks {
+				if ret, ok := b.Instrs[len(b.Instrs)-1].(*ssa.Return); ok && b != fn.Recover {
+					for _, rv := range returnedValues(fn, ret, len(ret.Results)-1) {
+						if !isNilConst(rv) {
+							return false
+						}
+					}
+				}
+			}
+		}
+	}
+	return found
+}
+
+func sortedValidatorNames(m map[string]*ssa.Function) []string {
+	var ks []string
+	for k := range m {
+		ks = append(ks, k)
+	}
+	sort.Strings(ks)
+	return ks
+}
+
+// hasValidateMethod: t (a named type of the root package) has a method Validate(interface{}) error.
+func hasValidateMethod(p *Program, t types.Type) bool {
+	n := namedOf(t)
+	if n == nil || n.Obj().Pkg() == nil || n.Obj().Pkg().Path() != modPath {
+		return false
+	}
+	for _, tt := range []types.Type{t, types.NewPointer(t)} {
+		ms := p.SSA.MethodSets.MethodSet(tt)
+		for i := 0; i < ms.Len(); i++ {
+			if ms.At(i).Obj().Name() != "Validate" {
+				continue
+			}
+			sig, ok := ms.At(i).Type().(*types.Signature)
+			if ok && sig.Params().Len() == 1 && sig.Results().Len() == 1 && isErrorType(sig.Results().At(0).Type()) {
+				return true
+			}
+		}
+	}
+	return false
 }
